@@ -1443,11 +1443,16 @@ Proof.
   rewrite H. reflexivity.
 Qed.
 
-(** Directed branch: explicit directed=True on every digraph, inferred flag on the non-symmetric ones. *)
+(** Only the resolved flag matters. *)
+Lemma break_cycles_flag_eq vo g root d1 d2 c1 c2 :
+  resolve_directed g d1 = resolve_directed g d2 ->
+  break_cycles vo g root d1 c1 c2 = break_cycles vo g root d2 c1 c2.
+Proof. intros H. unfold break_cycles, is_acyclic. rewrite H. reflexivity. Qed.
+
+(** Directed branch: evaluated with the explicit flag directed=True on every digraph; the inferred
+    flag on a non-symmetric pattern resolves to the same value. *)
 Definition dir_check (g : graph) : bool :=
-  forallb (fun root => negb (0 <? out_degree g root) ||
-                       (bc_check false (Some true) true g root &&
-                        (is_symmetric g || bc_check false None true g root)))
+  forallb (fun root => negb (0 <? out_degree g root) || bc_check false (Some true) true g root)
           (nonempty_sublists (nodes g)).
 Definition small_digraphs : list graph :=
   all_digraphs 0 true ++ all_digraphs 1 true ++ all_digraphs 2 true ++ all_digraphs 3 true ++ all_digraphs 4 false.
@@ -1464,17 +1469,13 @@ Proof.
   assert (Hres : resolve_directed g directed = Ok true).
   { destruct Hflag as [E|[E Hs]]; subst directed; simpl; [reflexivity | rewrite Hs; reflexivity]. }
   unfold bc_run. rewrite (break_cycles_vo_directed vo g root directed _ _ Hres).
+  rewrite (break_cycles_flag_eq false g root directed (Some true) _ _ Hres).
   pose proof (proj1 (forallb_forall dir_check small_digraphs) dir_check_small g Hg) as H.
   unfold dir_check in H. rewrite forallb_forall in H. specialize (H root Hr).
   apply Nat.ltb_lt in Hd. rewrite Hd in H. cbn [negb orb] in H.
-  apply andb_true_iff in H. destruct H as [H1 H2].
-  destruct Hflag as [E|[E Hs]]; subst directed.
-  - unfold bc_check, bc_run in H1.
-    destruct (break_cycles false g root (Some true) (canon_labels g true) (canon_labels (drop_loops g) true)) as [h|e];
-      [|discriminate]. exists h. auto.
-  - rewrite Hs in H2. cbn [orb] in H2. unfold bc_check, bc_run in H2.
-    destruct (break_cycles false g root None (canon_labels g true) (canon_labels (drop_loops g) true)) as [h|e];
-      [|discriminate]. exists h. auto.
+  unfold bc_check, bc_run in H.
+  destruct (break_cycles false g root (Some true) (canon_labels g true) (canon_labels (drop_loops g) true)) as [h|e];
+    [|discriminate]. exists h. auto.
 Qed.
 
 (** Undirected branch. For the code as it stands ([vo = false]) the positive statement needs the
@@ -1486,12 +1487,13 @@ Definition cycles_covered (g : graph) (root : list nat) : bool :=
   let r := reach_from g root in forallb (fun u => implb (on_ucycle_b g u) (nthb r u)) (nodes g).
 Definition und_check (vo : bool) (g : graph) : bool :=
   forallb (fun root => negb (0 <? out_degree g root) || (negb vo && negb (cycles_covered g root)) ||
-                       (bc_check vo None false g root && bc_check vo (Some false) false g root))
+                       bc_check vo (Some false) false g root)
           (nonempty_sublists (nodes g)).
 Definition small_undirected : list graph :=
-  filter is_symmetric (all_digraphs 0 true ++ all_digraphs 1 true ++ all_digraphs 2 true ++
-                       all_digraphs 3 true ++ all_digraphs 4 true).
+  all_undirected 0 ++ all_undirected 1 ++ all_undirected 2 ++ all_undirected 3 ++ all_undirected 4.
 
+Lemma small_undirected_symmetric : forallb is_symmetric small_undirected = true.
+Proof. vm_cast_no_check (eq_refl true). Qed.
 Lemma und_check_small_current : forallb (und_check false) small_undirected = true.
 Proof. vm_cast_no_check (eq_refl true). Qed.
 Lemma und_check_small_repaired : forallb (und_check true) small_undirected = true.
@@ -1504,6 +1506,10 @@ Theorem break_cycles_undirected_ok_upto_4_lemma (vo : bool) (g : graph) (root : 
   exists h, bc_run vo directed false g root = Ok h /\ bc_post g root false h = true.
 Proof.
   intros Hg Hr Hd Hcov Hflag.
+  pose proof (proj1 (forallb_forall _ _) small_undirected_symmetric g Hg) as Hsym.
+  assert (Hres : resolve_directed g directed = resolve_directed g (Some false)).
+  { destruct Hflag as [E|E]; subst directed; simpl; rewrite Hsym; reflexivity. }
+  unfold bc_run. rewrite (break_cycles_flag_eq vo g root directed (Some false) _ _ Hres).
   assert (H : und_check vo g = true).
   { destruct vo; [exact (proj1 (forallb_forall _ _) und_check_small_repaired g Hg)
                  | exact (proj1 (forallb_forall _ _) und_check_small_current g Hg)]. }
@@ -1512,10 +1518,9 @@ Proof.
   assert (Hc : negb vo && negb (cycles_covered g root) = false).
   { destruct vo; [reflexivity|]. rewrite (Hcov eq_refl). reflexivity. }
   rewrite Hc in H. cbn [orb] in H.
-  apply andb_true_iff in H. destruct H as [H1 H2].
-  destruct Hflag as [E|E]; subst directed.
-  - unfold bc_check in H1. destruct (bc_run vo None false g root) as [h|e]; [|discriminate]. exists h. auto.
-  - unfold bc_check in H2. destruct (bc_run vo (Some false) false g root) as [h|e]; [|discriminate]. exists h. auto.
+  unfold bc_check, bc_run in H.
+  destruct (break_cycles vo g root (Some false) (canon_labels g false) (canon_labels (drop_loops g) false)) as [h|e];
+    [|discriminate]. exists h. auto.
 Qed.
 
 (** Refutation (D22): triangle {0,2,3}, separate root 1 carrying a self-loop. The undirected branch
@@ -1828,4 +1833,55 @@ Theorem break_cycles_undirected_repaired_lemma (g : graph) (root : list nat) (di
     (forall r v, In r root -> r < length g -> reach (edge g) r v -> exists r', In r' root /\ reach (edge h) r' v).
 Proof.
   intros Hg Hr Hd Hf. apply break_cycles_undirected_ok_upto_4_prop_lemma; auto. discriminate.
+Qed.
+
+(** * get_cycles never runs out of depth budget *)
+Lemma concat_opt_all_some {A} (l : list (option (list A))) :
+  (forall o, In o l -> exists a, o = Some a) -> exists r, concat_opt l = Some r.
+Proof.
+  induction l as [|o t IH]; intros H; [exists []; reflexivity|].
+  destruct (H o (or_introl eq_refl)) as [a Ea]. subst o.
+  destruct IH as [r Er]; [intros o Ho; apply H; right; exact Ho|].
+  exists (a ++ r). simpl. rewrite Er. reflexivity.
+Qed.
+
+Lemma good_path_length g path cur : good_path g path cur -> length path <= length g.
+Proof.
+  intros [_ [_ [Hnd [_ Hlt]]]].
+  assert (Hincl : incl path (seq 0 (length g))) by (intros x Hx; apply in_seq; specialize (Hlt x Hx); lia).
+  pose proof (NoDup_incl_length Hnd Hincl) as H. rewrite seq_length in H. exact H.
+Qed.
+
+Lemma gc_visit_total g directed : wf_graph g -> forall d path cur,
+  good_path g path cur -> length g < d + length path ->
+  exists cs, gc_visit d g directed cur path = Some cs.
+Proof.
+  intros Hwf. induction d as [|d IH]; intros path cur Hgp Hd.
+  - pose proof (good_path_length g path cur Hgp). lia.
+  - cbn [gc_visit]. cbv zeta.
+    destruct (gc_scan_spec g directed (prev_of path) path cur (row g cur)) as [_ S2].
+    destruct (concat_opt_all_some
+                (map (fun v => gc_visit d g directed v (path ++ [v]))
+                     (rev (snd (gc_scan directed (prev_of path) path (row g cur)))))) as [r Er].
+    + intros o Ho. apply in_map_iff in Ho. destruct Ho as [v [Ev Hv]]. apply in_rev in Hv.
+      destruct (S2 v Hv) as [A B]. subst o. apply IH.
+      * exact (good_path_extend g path cur v Hwf Hgp A B).
+      * rewrite app_length. simpl. lia.
+    + rewrite Er. eexists; reflexivity.
+Qed.
+
+Theorem get_cycles_total_lemma (g : graph) (directed : option bool) (comp : list nat) (d : bool) :
+  wf_graph g -> resolve_directed g directed = Ok d -> exists cs, get_cycles g directed comp = Ok cs.
+Proof.
+  intros Hwf Hd. unfold get_cycles. rewrite Hd.
+  destruct (d && (n_labels comp =? length g)); [eexists; reflexivity|].
+  destruct (negb d && count_criterion g comp); [eexists; reflexivity|].
+  match goal with |- context [concat_opt ?l] => destruct (concat_opt_all_some l) as [r Er] end.
+  - intros o Ho. apply in_map_iff in Ho. destruct Ho as [s [Es _]]. subst o.
+    destruct (Nat.lt_ge_cases s (length g)) as [Hlt|Hge].
+    + apply gc_visit_total; auto; [|simpl; lia].
+      split; [discriminate|]. split; [reflexivity|]. split; [constructor; [intros []|constructor]|].
+      split; [simpl; auto|]. intros x [Hx|[]]. subst. exact Hlt.
+    + simpl. rewrite (row_oob g s Hge). simpl. eexists; reflexivity.
+  - rewrite Er. eexists; reflexivity.
 Qed.
